@@ -31,6 +31,7 @@ EXPLANATION = (
     "with/decorator and that no plain generator suspends inside an interpretation context; R17.9 checks that dispatch "
     "reads the top of the stack. Given these facts Python's with/ContextDecorator protocol implies by induction on "
     "nesting depth that after a well-nested sequence the stack equals the one before the matching entry."
+    ' Added since: R17.1 locates the push/pop primitives by role and judges their shape; R17.5 judges transformations of the flattened layer tuple as a pipeline (reversals cancel, de-duplication keeps the innermost copy).'
 )
 ASSUMPTIONS = [
     "Python's `with` statement and contextlib.ContextDecorator call __exit__ exactly once for every __enter__ that returned",
